@@ -77,6 +77,26 @@ def families(tier, rng):
     return fam
 
 
+ODD_ARGS = ["//", "//x", "//d", "//d/g", "///", "///d", "/./", "/.", "./.", "/../..", "//..", "//../f", ".//", "d//", "/d//e/", "d/./e", "//d/../..", "/" + "a" * 200,
+            "a/" * 50 + "b", "..//", "f//", "//f/", "/f/.", ". ", "./f", "/./f"]
+
+
+def odd_arguments():
+    """Every verb that takes a path, with arguments that are odd but perfectly decodable (doubled and tripled slashes at the front,
+    in the middle and at the end, dots, very long names): answered, and the session goes on."""
+    out = []
+    for a in ODD_ARGS:
+        st = [["connect", 1], ["send", 1, "USER u1"], ["send", 1, "PASS pw1"]]
+        for v in ("MLST", "CWD", "PWD", "CDUP", "MKD", "RMD", "RNFR", "DELE"):
+            st.append(["send", 1, (v + " " + a) if v not in ("PWD", "CDUP") else v])
+        st += [["send", 1, "RNFR f"], ["send", 1, "RNTO " + a], ["send", 1, "PWD"]]
+        for v in ("LIST", "MLSD", "RETR", "STOR", "APPE"):
+            st += gen.transfer(1, v, a, data=[3, 1] if v in ("STOR", "APPE") else None)
+        st += [["send", 1, "PWD"], ["send", 1, "MLST"]]
+        out.append(st)
+    return out
+
+
 def dev_cfg(pool):
     return gen.std_cfg(ns=3, usepool=True, ports=[3001, 3002, 3003])
 
@@ -108,6 +128,9 @@ def run(tier, seed):
         if a[0] != b[0] or ("LIST" not in repr(fam[i][1][0]) and "MLSD" not in repr(fam[i][1][0]) and a != b):
             chk.violation({"at": "victim-differential"}, {"with_hostile": a, "solo": b},
                           {"cfg": cfg, "tree": gen.STD_TREE, "schedule": scheds[i]})
+    oa = odd_arguments()
+    for b in ("memory", "path"):
+        corecheck.validate(chk, gen.std_cfg(ns=1, backend=b), gen.STD_TREE, oa, label="odd-arguments:" + b)
     # a new session is still greeted after all of it
     chk.cov["rule"] = ("a victim session running a corpus script while 1-2 hostile sessions send undecodable bytes, over-limit lines, "
                        "NUL/LF-only/empty/blank lines, valid verbs with mutated arguments, fragments followed by EOF; the interleaved "
